@@ -56,6 +56,9 @@ class Image:
             else:
                 self.put(spec, v, base)
 
+    def to_buf(self):
+        return Buf(cells=[norm_int(Sym(bits=list(b))) for b in self.bits])
+
     def append(self, other):
         self.bits.extend([list(b) for b in other.bits])
 
